@@ -4,6 +4,10 @@
 exec 9>/tmp/confirm_queue.lock
 flock 9
 for id in "$@"; do
+  # every scratch copy has its own paths, so the Go build cache grows by a few hundred MB per confirmation
+  if [ "$(du -sm "${GOCACHE:-$HOME/.cache/go-build}" 2>/dev/null | cut -f1)" -gt 40000 ] 2>/dev/null; then
+    PATH=/opt/veriftools/go1.26.8/bin:$PATH GOTOOLCHAIN=local go clean -cache
+  fi
   for try in 1 2; do
     res=$(/verif/confirm_seed.sh /verif/seeded/$id | tail -1)
     echo "$(date +%H:%M) $id try$try: $res" >> /tmp/confirm_queue.log
